@@ -800,3 +800,25 @@ Proof. vm_compute. reflexivity. Qed.
 Example ex_alias_multi : reports [64; 97; 124; 98; 124; 99; 123; 125] true D_MULTI_ALIAS [(2, 6)] = true.
 Proof. vm_compute. reflexivity. Qed.
 
+
+(* the glue on a three-event stream with a parser error / without (a collector that reports one
+   analysis warning per Start event) *)
+Definition toy_astep (s : nat) (e : pevent) : outcome (nat * list sdiag) :=
+  match e with
+  | EvStart _ => Done (S s, [{| sd_sev := SevWarning; sd_stage := StAnalysis; sd_labels := [] |}])
+  | _ => Done (s, [])
+  end.
+Definition toy_err : diag := {| d_err := true; d_code := D_EMPTY_NAME; d_labels := [(1, 1)] |}.
+Definition toy_warn : diag := {| d_err := false; d_code := D_EMPTY_UNIT; d_labels := [(4, 5)] |}.
+
+Example ex_glue_error :
+  parse_events nat toy_astep (fun _ => []) true O [EvStart true; EvDiag toy_warn; EvDiag toy_err; EvEnd true]
+  = Done {| pr_output := None; pr_report := {| r_buf := [of_pdiag toy_warn; of_pdiag toy_err]; r_tag := None |} |}.
+Proof. reflexivity. Qed.
+
+Example ex_glue_no_error :
+  parse_events nat toy_astep (fun _ => []) true O [EvStart true; EvDiag toy_warn; EvEnd true]
+  = Done {| pr_output := Some 1%nat;
+            pr_report := {| r_buf := [{| sd_sev := SevWarning; sd_stage := StAnalysis; sd_labels := [] |}; of_pdiag toy_warn];
+                            r_tag := None |} |}.
+Proof. reflexivity. Qed.
